@@ -193,7 +193,11 @@ class HP(Profile):
 
 def build_profile(spec):
     p = HP()
-    for s in spec["services"]:
+    build = spec.get("build") or {}
+    svc_order = build.get("services") or list(range(len(spec["services"])))
+    for si in svc_order:
+        s = spec["services"][si]
+        char_order = (build.get("chars") or {})[si] if build.get("chars") else list(range(len(s.get("chars", []))))
         uuid = UUID(bytes.fromhex(s["uuid"]))
         if s["kind"] == "primary":
             svc = PrimaryService(uuid=uuid, handle=s["handle"], end_handle=s["end"])
@@ -204,7 +208,8 @@ def build_profile(spec):
                                  start_handle=i["start"], end_handle=i["end"])
             svc.add_included_service(inc)
             p.register_attribute(inc)
-        for c in s.get("chars", []):
+        for ci in char_order:
+            c = s["chars"][ci]
             ch = Characteristic(uuid=UUID(bytes.fromhex(c["uuid"])), handle=c["handle"],
                                 value=bytes.fromhex(c["value"]), properties=c["props"],
                                 security=SecurityAccess.int_to_accesses(c["sec"]))
